@@ -29,3 +29,4 @@ def run(ctx):
     from ..rules_ast import persistent_state_rule
     ctx.guard(persistent_state_rule, ctx, "C11.own-pattern")
     run_kernels(ctx, ["K13", "K16"], "C11")
+    run_kernels(ctx, ["K1", "K10", "K2"], "C11")
